@@ -153,6 +153,7 @@ class AirTouchSocket(Generic[comms.Hdr]):
 
         self.is_open = False
         self.is_connected = False
+        self._connecting = False
 
         self._background_tasks: set[asyncio.Task[Any]] = set()
 
@@ -296,7 +297,14 @@ class AirTouchSocket(Generic[comms.Hdr]):
             _LOGGER.debug("_connect ignored. Already connected")
             return
 
+        if self._connecting:
+            # Concurrent resets (e.g. a read error and a write error for the
+            # same broken connection) must not open more than one connection.
+            _LOGGER.debug("_connect ignored. Connection attempt already in progress")
+            return
+
         _LOGGER.debug("Attempting to open connection to %s:%d", self.host, self.port)
+        self._connecting = True
         try:
             self._reader, self._writer = await asyncio.open_connection(
                 host=self.host, port=self.port
@@ -312,6 +320,8 @@ class AirTouchSocket(Generic[comms.Hdr]):
             self._schedule(self._read())
         except OSError as ex:
             _LOGGER.debug("Unable to connect. Will try again later. Reason: %s", ex)
+        finally:
+            self._connecting = False
 
         if not self.is_connected:
             # Connection failed, so retry after a small delay
